@@ -7,6 +7,7 @@ NOTE_COMMON=("Bounded: ranks/sizes/argument ranges as listed in evidence.bounds;
   "(rounding/overflow outside the claim); math.* and gonum samplers are contract stubs; trusted: go/ssa lowering, the executor's "
   "semantics for the SSA instructions met (validated by replaying sampled path models natively), z3 4.8.12, the reference models in /verif/harness.")
 checks={
+ "C09":("Every public entry point of the tensor and component packages is called symbolically with solver-chosen arguments (integers in [-2,6], slices of length 0..3 or nil, tensors of any small rank/shape or nil, ragged nested data, invalid configs); every Go panic site on the path (index, slice bounds, nil dereference, nil func, type assertion, explicit panic) is an obligation; err != nil is proved equivalent to the documented precondition and results have the defined shape.","3 C09, Appendix A"),
  "C08":("Tracking flags: (a) one application of every op with each operand in a solver-chosen tracking state (inductive step over flags), (b) solver-enumerated bounded histories including BackPropagate and ResetGradContext against a reference state machine; flags, gradient presence and write footprints compared after every step.","3 C08"),
  "C11":("One inductive training step (forward, loss, BackPropagate, SGD.Update on both FC parameters, ResetGradContext) from arbitrary symbolic weights, repeated on the real post-update objects with values abstracted; new weights proved equal to w - lr*dLoss/dw (closed-form reference), post-state invariant (tracked, unspent, no gradient, no edges) checked; no-reset variant must error.  B>1 deviates by the Broadcast mean (known finding, deviant oracle).","3 C11, 5"),
  "C18":("Initializers and RandU/RandN executed symbolically with gonum's samplers replaced by contract stubs: shape, tracking, one distinct fresh draw per element and per call, and the exact parameter terms of every draw (fan values 1..64 and all real bounds symbolic) are decided by the solver; the distributional half rests on gonum's contract and is only sampled natively.","3 C18"),
